@@ -357,6 +357,12 @@ def _random_pass(case, trace):
             elif name == "track_playback_started":
                 if seen is not None:
                     seen.add(kw["tl_track"].tlid)
+        if k in ("getnext", "geteot") and seen is not None and q is not None and not t["exc"] \
+                and tl_before and set(tl_before) <= seen and (t["modes"][2] or q["current"] is None) \
+                and not (k == "geteot" and t["modes"][3]):
+            # the predictors go through next_track as well: asked when the order is used up (and
+            # repeat is on or nothing is current) they draw the new order - the new pass begins here
+            seen = set()
         x = t["pending"]
         if x is not None and (q is None or x != q["pending"] or k in ("play", "next", "previous", "atf", "load")):
             if k == "load" or (k == "play" and len(t["op"]) > 1 and t["op"][1] == x):
